@@ -10,6 +10,7 @@ import FontVerif.Model.Scale
 import FontVerif.Model.HintMove
 import FontVerif.Model.FtMove
 import FontVerif.Drv.C03Prog
+import FontVerif.Drv.C03Load
 namespace FontVerif.Drv.C03
 open FontVerif
 
@@ -67,6 +68,9 @@ def handle (cmd : String) (args : List String) : Option String :=
   | none => none
   | some xs =>
     match C03Prog.handle cmd xs with
+    | some r => some r
+    | none =>
+    match (if cmd = "sk.load" ∨ cmd = "ft.load" then C03Load.handle cmd xs else none) with
     | some r => some r
     | none =>
     match cmd, xs with
